@@ -54,7 +54,7 @@ fn check_arr(case: &ArrCase, cov: &mut Cov) -> CheckResult {
             cov.class("param-degenerate(constant or h<2)");
             continue;
         }
-        let cond = 1.0 + (pm.loc.0 / pm.scale.0).abs() / 10.0;
+        let cond = 1.0 + (pm.loc.0 / pm.scale.0).abs() / 25.0;
         let (ok, conv, want, dev) = match_rhat(got, chains, RHAT_RTOL * cond);
         cov.track_max("rhat_rel_dev_over_cond", dev / cond);
         if !ok {
@@ -160,7 +160,7 @@ fn check_meta(case: &MetaCase, cov: &mut Cov) -> CheckResult {
         cov.class("degenerate-skip");
         return Ok(());
     }
-    let cond = 1.0 + (pm.loc.0 / pm.scale.0).abs() / 10.0 + (case.b.0 / case.a.0).abs() / 10.0;
+    let cond = 1.0 + (pm.loc.0 / pm.scale.0).abs() / 25.0 + (case.b.0 / case.a.0).abs() / 25.0;
     let tol = 2.0 * RHAT_RTOL * cond;
 
     // (1) affine map of parameter p (values rounded to f32 again: that is the map a user applies)
@@ -395,7 +395,7 @@ fn check_runstats(case: &ArrCase, cov: &mut Cov) -> CheckResult {
 pub fn run(ctx: &mut Ctx) {
     ctx.rule = "sample arrays 1..16 chains x 4..5000 draws x 1..8 params (iid / AR(1) / trend / multimodal / hetero-scale / ties / constant; sizes biased to 4..9, odd, 190..212 and long), structure from proptest, bulk values from the case's data_seed; non-trivial = >=2 chains whose half-means differ by > 0.1 sigma, a separation/metamorphic case, or a NaN summary of length > 20; distinct by case fingerprint".into();
     ctx.assume("within-half variance divisor is not fixed by the statement: divisor n and n-1 are both accepted");
-    ctx.assume("|loc|/scale <= 100 (f32 conditioning); comparison tolerance 2e-3*(1+|loc|/scale/10) relative, calibrated on the pinned tree (observed maxima are in the evidence)");
+    ctx.assume("|loc|/scale <= 5000; comparison tolerance 1e-4*(1+|loc|/scale/25) relative (f32 rounding of the data alone is eps32*|loc|/scale), calibrated on the pinned tree (observed maxima are in the evidence)");
     let t = ctx.tier;
     let long = if t == Tier::Quick { 2000 } else { 5000 };
     ctx.section(
